@@ -162,6 +162,15 @@ func init() {
 			}
 			o := admissionOpts(c.Idx + 3)
 			o.WSchedule, o.WFinish, o.WCancel, o.WFire, o.WStopRel, o.WRead = 48, 20, 16, 10, 4, 1
+			if c.Idx%12 == 3 {
+				// "a concurrency slot is free" counts the jobs that run, however often saves with retention have removed
+				// (several) finished jobs from the lists the runner keeps
+				o.StoreDir = c.TmpDir
+				o.Retention = true
+				o.WSave = 8
+				o.WFinish = 30
+				o.Pipe.CyclicProb = 0
+			}
 			if c.Idx%6 == 5 {
 				// the table is applied with the limit / strategy in force, also when a reload changed them while more jobs
 				// wait than the new limit allows
